@@ -151,6 +151,29 @@ class C19(Check):
         else:
             self.undecided_ob("D1", MOD, save.name, cons, save, "publish idiom not recognised (neither direct write nor temp+replace)")
 
+        # the trusted name comes into existence only through the save function: nothing in the hit/miss routine creates it beforehand
+        exist_paths = {norm(c.func.value) for c in ast.walk(lor) if isinstance(c, ast.Call) and isinstance(c.func, ast.Attribute) and c.func.attr in ("exists", "is_file")}
+        CREATORS = ("touch", "write_bytes", "write_text", "open", "mkdir", "symlink_to", "hardlink_to", "link_to")
+        early = []
+        for c in ast.walk(lor):
+            if not isinstance(c, ast.Call):
+                continue
+            if isinstance(c.func, ast.Attribute) and c.func.attr in CREATORS and norm(c.func.value) in exist_paths:
+                if c.func.attr == "open" and not any(isinstance(a, ast.Constant) and isinstance(a.value, str) and set(a.value) & set("wax+") for a in list(c.args) + [k.value for k in c.keywords]):
+                    continue
+                early.append(c)
+            elif norm(c.func) in ("open", "io.open", "os.open", "os.mknod") and c.args and norm(c.args[0]) in exist_paths \
+                    and (norm(c.func) != "open" or any(isinstance(a, ast.Constant) and isinstance(a.value, str) and set(a.value) & set("wax+") for a in list(c.args[1:]) + [k.value for k in c.keywords])):
+                early.append(c)
+        if exist_paths:
+            if early:
+                self.violated("D1", MOD, "_load_or_run", "trusted-name-created-only-by-save", early[0],
+                              f"`{norm(early[0])}` creates the path whose existence means 'result available' before the result has been computed and written: "
+                              "a run interrupted after it leaves an empty file that every rerun takes for the result",
+                              witness="kill the process while fn(v) runs: the rerun finds <key>.p, loads it and fails with EOFError instead of recomputing")
+            else:
+                self.holds("D1", MOD, "_load_or_run", "trusted-name-created-only-by-save", lor, f"`{sorted(exist_paths)[0]}` is created by the save function only")
+
         # ---- D2
         q = "_load_or_run"
         files = {norm(a) for c in ast.walk(lor) if isinstance(c, ast.Call) and norm(c.func).endswith((".exists", "load_fn", "save_fn"))
